@@ -298,7 +298,8 @@ def mutate_text(rng, s):
 
 
 # ------------------------------------------------------------------ graphs
-CONSTS = ['-', '+', 'x', 'val', '"Kim"', '"a b"', '"(p) :q ~r"', 0, 0.0, -1, 1, 3.5, None, 'imperative', '12', '"0"']
+CONSTS = ['-', '+', 'x', 'val', '"Kim"', '"a b"', '"(p) :q ~r"', 0, 0.0, -1, 1, 3.5, None, 'imperative', '12', '"0"',
+          '"he said \\"~10%\\""', '"\\"q\\" ~e.2"', '"C:\\\\"']     # escaped quotes before a tilde; a string ending in an escaped backslash
 GROLES = [':ARG0', ':ARG1', ':ARG2', ':op1', ':op2', ':op10', ':mod', ':domain', ':polarity', ':quant', ':r', ':R', ':S',
           ':consist-of', ':x-y', ':time', ':name', ':', ':ARG0-of', ':r-of']
 
